@@ -5,7 +5,10 @@
 (*   [ev |-> "reset", case |-> n, pass |-> "eager" | "lazy"]               *)
 (*   [ev |-> "step", case |-> n, i |-> 0-based step, op |-> <op record>,   *)
 (*    ret |-> STRING, pass, seen |-> BOOLEAN, entry |-> save entry point,  *)
-(*    pkg |-> the package as the independent reader saw it]                *)
+(*    pkg |-> the package as the independent reader saw it,                *)
+(*    inp |-> the package the step handed to the library's open (Reopen:   *)
+(*            the saved bytes as respelt by the producer in between;       *)
+(*            zip = "none" where the step opens nothing)]                  *)
 (* Every behaviour is executed eagerly (the document is written through a  *)
 (* save entry point and read back after every step) and, where the case    *)
 (* asks for it, a second time lazily (written only where the behaviour     *)
@@ -16,7 +19,11 @@
 (*        a violation the package did not show before this step, charged   *)
 (*        to the call of this step and its argument classes; in the lazy   *)
 (*        pass a violation that the eager pass of the same behaviour did   *)
-(*        not show is charged to "(saved later)"                           *)
+(*        not show is charged to <<"(saved later)", the call that last     *)
+(*        wrote that part kind, the origin of the document object>>        *)
+(*   <<"X01", ...>>  the package handed to Reopen was itself outside the   *)
+(*        property (the respelling machinery is at fault): note, the       *)
+(*        behaviour leaves the premise                                     *)
 (*   <<"N01", ...>>  the same, but after a call of the behaviour failed or *)
 (*        panicked (outside the premise of the property): note, no verdict *)
 (*   <<"M01", op, field>>  the library differs from the reference machine  *)
@@ -36,20 +43,28 @@ Success(e) == e.ret \in {"ok", "skip"}
 
 Expected(e) == IF e.ret = "skip" THEN cur ELSE Apply(cur, e.op)
 
+\* the package a step fed to the library (if any) must itself satisfy the property
+Fed(e)   == e.inp.zip # "none"
+\* (what the library's own earlier output already showed is the library's, not the producer's)
+BadIn(e) == IF Fed(e) THEN Viol_C01(ObsPkg(e.inp)) \ (Viol_C01(cur.pkg) \cup eagerV) ELSE {}
+\* lazy pass: the call that last wrote the part kind of a violation, according to the reference machine
+LastBy(s, k) == IF k \in PartKinds THEN s.by[k].op ELSE "-"
+
 Judge(e) ==
   LET lazy == e.pass = "lazy"
       exp  == Expected(e)
       obs  == ObsPkg(e.pkg)
-      tainted == cur.taint \/ ~Success(e)
+      tainted == cur.taint \/ ~Success(e) \/ BadIn(e) # {}
       tag  == IF tainted THEN "N01" ELSE "C01"
       new  == Viol_C01(obs) \ Viol_C01(cur.pkg)
-      who  == IF lazy THEN <<"(saved later)", "-", "-">> ELSE <<e.op.op, A1(e.op), A2(e.op)>>
+      Who(v) == IF lazy THEN <<"(saved later)", LastBy(exp, v[2]), exp.org>> ELSE <<e.op.op, A1(e.op), A2(e.op)>>
   IN  \* a save entry point called by the behaviour itself fails or panics after successful calls only
       (IF e.op.op \in SaveOps /\ ~Success(e) /\ ~cur.taint
          THEN {<<"C01", "save-failed", "-", e.ret, e.op.op, "-", "-">>} ELSE {})
       \cup (IF e.ret = "panic" /\ e.op.op \notin SaveOps THEN {<<"N01", "panic", "-", "-", e.op.op, A1(e.op), A2(e.op)>>} ELSE {})
       \cup (IF ~e.seen THEN {}
-            ELSE {<<tag, v[1], v[2], v[3], who[1], who[2], who[3]>> : v \in (IF lazy THEN new \ eagerV ELSE new)})
+            ELSE {<<tag, v[1], v[2], v[3], Who(v)[1], Who(v)[2], Who(v)[3]>> : v \in (IF lazy THEN new \ eagerV ELSE new)})
+      \cup {<<"X01", "input", v[1], v[2], v[3], e.op.op, A2(e.op)>> : v \in BadIn(e)}
       \* ---- binding notes (no verdict) ----
       \cup (IF e.ret # "skip" /\ e.ret # Ret(cur, e.op) /\ ~(e.op.op \in SaveOps) THEN {<<"M01", e.op.op, "ret">>} ELSE {})
       \cup (IF e.seen /\ Success(e) /\ ~cur.taint /\ obs.zip = "ok" /\ PartBag(obs) # PartBag(exp.pkg)
@@ -57,7 +72,7 @@ Judge(e) ==
 
 Resync(e) ==
   LET exp == Expected(e)
-      t   == cur.taint \/ ~Success(e)
+      t   == cur.taint \/ ~Success(e) \/ BadIn(e) # {}
   IN IF e.seen THEN [exp EXCEPT !.pkg = ObsPkg(e.pkg), !.taint = t]
      ELSE [exp EXCEPT !.taint = t]
 
